@@ -81,6 +81,40 @@ def _closure_result_sunk(F, body, depth=3):
             return True
         if 0 in taint and (_callers_sink_result(F, parent.root) or _closure_result_sunk(F, parent, depth - 1)):
             return True
+    # the closure is handed (as a closure or coerced to a fn pointer) to a helper of the crate, which calls it and gives the
+    # Option it returns to unwrap_or_overflow: `step_variable(term, |v| v.checked_add(1), ..)`
+    for blk, t in parent.calls():
+        callee = pp.callee(t)
+        if not callee.startswith('yash_arith::') or callee not in F.by_root:
+            continue
+        for i, a in enumerate(t['a']):
+            o = du.origin(a)
+            if o.get('k') == 'cast':
+                o = o.get('from') or o
+            if not (o.get('k') == 'agg' and o['rv'].get('def') == body.fn):
+                continue
+            helper = F.main_body(callee)
+            hdu = Q.DefUse(helper)
+            param = i + 1
+            ok = False
+            for hb, ht in helper.calls():
+                ind = ht['f'].get('indirect')
+                via_param = False
+                if ind is not None:
+                    ho = hdu.origin(ind)
+                    via_param = (ho.get('k') == 'arg' and ho.get('l') == param) or \
+                        (ho.get('k') == 'place' and ho['pl'].get('l') == param)
+                elif Q.callee_is(ht, [re.compile(r'ops::function::Fn(Mut|Once)?(<.*>)?>?::call(_mut|_once)?$')]) and ht['a']:
+                    ho = hdu.origin(ht['a'][0])
+                    via_param = (ho.get('k') in ('arg',) and ho.get('l') == param) or \
+                        (ho.get('k') in ('place', 'ref') and ho['pl'].get('l') == param)
+                if not via_param:
+                    continue
+                taint = Q.forward_taint(helper, {ht['dest']['l']}, through_calls=OPTION_ADAPTERS + Q.PROPAGATING_CALLS)
+                if Q.calls_with_tainted_arg(helper, [EVAL + 'unwrap_or_overflow'], taint):
+                    ok = True
+            if ok:
+                return True
     return False
 
 
@@ -424,29 +458,53 @@ def r5(cx):
         cx.cellcount(1)
         if not (len(bins) == 1 and bins[0]['op'] == op and H.peel(bins[0]['a']).get('name') == 'lhs' and H.peel(bins[0]['b']).get('name') == 'rhs'):
             cx.violation(fn, 'operator:%s' % v, '%s must be lhs %s rhs' % (v, op), loc=loc)
-    # apply_binary partition
+    # apply_binary partition: decided per operator on the (inlined) MIR, so that the shape of the dispatch is free
+    # (one match, matches! + if, an extracted helper): which of assign / binary_result / expand_variable can be reached when
+    # every test of `operator` takes the edge of that operator
     fn2 = EVAL + 'apply_binary'
     cx.fn(fn2)
-    t2, m2 = H.fn_match_table(F, fn2, BOP)
+    from facts import same_module_private
+    _acc = same_module_private(F, fn2)
+    keep = {EVAL + n for n in ('assign', 'binary_result', 'expand_variable', 'require_variable', 'into_value', 'unwrap_or_overflow')}
+    body2 = F.inlined(fn2, accept=lambda c: c not in keep and _acc(c))
+    du2 = Q.DefUse(body2)
     loc2 = '%s:%d' % (F.hir[fn2]['file'], F.hir[fn2]['line'])
-    arms = {}
-    for v, (i, body) in t2.items():
-        arms.setdefault(i, []).append(v)
+    variants = [v.split('::')[-1] for v in H.enum_variants(F, BOP)]
+    op_switches = {}
+    for u in sorted(body2.live_blocks()):
+        ec = Q.edge_condition(F, body2, du2, u)
+        if ec and ec[0]['k'] == 'discr' and 'BinaryOperator' in (ec[0].get('ty') or ''):
+            op_switches[u] = ec[1]
+    cx.require(op_switches, 'apply_binary no longer dispatches on the BinaryOperator')
+
+    def blocks_calling(name):
+        out = {blk for blk, t in body2.calls() if pp.callee(t) == EVAL + name}
+        # a closure created here (e.g. the argument of Result::and_then) that makes the call counts for the block creating it
+        for blk, j, st in body2.stmts():
+            if st['k'] == 'assign' and st['rv']['k'] == 'agg' and st['rv'].get('ak') == 'closure':
+                cb = F.bodies.get(st['rv'].get('def') or '')
+                if cb is not None and any(pp.callee(t) == EVAL + name for _, t in cb.calls()):
+                    out.add(blk)
+        return out
+    targets = {'assign': blocks_calling('assign'), 'binary_result': blocks_calling('binary_result'), 'expand_variable': blocks_calling('expand_variable')}
+    cx.require(targets['assign'] and targets['binary_result'], 'apply_binary no longer calls assign / binary_result (after inlining its helpers)')
+    for v in variants:
+        removed = set()
+        for u, labels in op_switches.items():
+            for tgt, labs in labels.items():
+                if ('variant', v) not in labs:
+                    removed.add((u, tgt))
+        got = tuple(bool(tg) and Q.shortest_path_flags(F, body2, du2, 0, tg, removed_edges=removed) is not None
+                    for tg in (targets['assign'], targets['binary_result'], targets['expand_variable']))
         cx.cellcount(1)
-    kinds = {}
-    for i, vs in arms.items():
-        body = t2[vs[0]][1]
-        names = [H.short(c.get('def') or '') for c in H.calls(body)]
-        kinds[i] = ('assign' in names, 'binary_result' in names, 'expand_variable' in names)
-    for v, (i, body) in t2.items():
-        assigns, computes, reads = kinds[i]
         if v == 'Assign':
             want = (True, False, False)
         elif v.endswith('Assign'):
             want = (True, True, True)
         else:
             want = (False, True, False)
-        if (assigns, computes, reads) != want:
+        if got != want:
+            assigns, computes, reads = got
             cx.violation(fn2, 'class:%s' % v, '%s is handled by an arm that %s assign / %s compute / %s re-read the variable'
                          % (v, 'does' if assigns else 'does not', 'does' if computes else 'does not', 'does' if reads else 'does not'), loc=loc2)
 
@@ -845,9 +903,15 @@ def r12(cx):
     RV = EVAL + 'require_variable'
     ASSIGN = EVAL + 'assign'
     n = 0
-    for body in F.bodies.values():
-        if not body.fn.startswith(EVAL) or '::tests' in body.fn:
+    from facts import same_module_private
+    for body0 in list(F.bodies.values()):
+        if not body0.fn.startswith(EVAL) or '::tests' in body0.fn:
             continue
+        if not Q.find_calls(body0, [RV]):
+            continue
+        # an extracted helper that does the assignment (apply_compound_assignment) is analysed in place
+        _acc = same_module_private(F, body0.root)
+        body = F.inlined(body0, accept=lambda c, _a=_acc: c not in (RV, ASSIGN) and _a(c))
         reqs = Q.find_calls(body, [RV])
         if not reqs:
             continue
@@ -865,7 +929,7 @@ def r12(cx):
                              'error and without assigning it: `unset x; echo $((x+=0)) ${x-unset}` must define x, `y=010; : $((y|=0))` must '
                              'store 8, and `readonly z=5; $((z*=1))` must fail - a shortcut that skips the write when the value looks '
                              'unchanged breaks all three', loc=body.loc(t), path=Q.render_path(body, p))
-    cx.floor(n, 5, 'operators that demand a variable operand (=, op=, prefix and postfix ++/--)')
+    cx.floor(n, 3, 'operators that demand a variable operand (=, op=, prefix and postfix ++/--)')
 
 
 RS.explanation += ' Every operator that demands a variable operand assigns it on every error-free path (R12).'
